@@ -101,7 +101,8 @@ def h_extension(xtag: str, xrel: str, kt: int, has_a: bool, split: bool) -> bool
     pb = docs.P()
     px = docs.P(dict(xxtagcat1=xtag, xxsrel_type=xrel, xxssr_type=xrel, xxsx1=text, xxdef1=text,
                      xxssx1=text, xxtag1=text, has_xxlemma_tag=has_a, has_xxs_count=has_a,
-                     has_xxss_def=has_a))
+                     has_xxss_def=has_a, has_xxlemma_pron=has_a, has_xxform_pron=not has_a,
+                     xxpron1=text, xxfpron1=text))
     res = docs.resource([docs.lexicon_rich(pb, style='1.1'), docs.extension_rich(px)], version)
     return rt.verdict(_check(res, split))
 
